@@ -91,7 +91,7 @@ func genMediaTypes() {
 	r := run.Rand.Fork()
 	// exhaustive over a small alphabet
 	alpha := []byte("aZ0/+.!*\n")
-	maxLen := run.Scale(5, 6)
+	maxLen := run.Scale(5, 7)
 	var rec func(prefix []byte)
 	rec = func(prefix []byte) {
 		mediaTypeCase(string(prefix))
@@ -120,7 +120,7 @@ func genMediaTypes() {
 		}
 	}
 	// mutations of valid names
-	n := run.Scale(20000, 400000)
+	n := run.Scale(20000, 1000000)
 	all := allBytes()
 	for i := 0; i < n; i++ {
 		s := randValidMediaType(r)
@@ -204,7 +204,7 @@ func genTimes() {
 			timeCase(fmt.Sprintf("2006-01-02T%02d:%02d:%02dZ", h, m, m))
 		}
 	}
-	n := run.Scale(20000, 400000)
+	n := run.Scale(20000, 1000000)
 	all := allBytes()
 	for i := 0; i < n; i++ {
 		s := randTime(r)
@@ -231,7 +231,7 @@ func randCreated(r *common.Rand) string {
 
 // ---------------------------------------------------------------- pack calls
 
-var annKeys = []string{"k", "org.example.key", "", "a b", "üñï", "io.verif/x", "org.opencontainers.image.source",
+var annKeys = []string{"k", "k1", "k.", "org.example.key", "", "a b", "üñï", "io.verif/x", "org.opencontainers.image.source",
 	"org.opencontainers.image.ref.name"}
 var annVals = []string{"", "v", "hello world", "\"quoted\"", "<a&b>", "line1\nline2", "☃", "{}", "2006-01-02T15:04:05Z", "a=b;c:d,e"}
 
@@ -390,9 +390,77 @@ func randSpec(r *common.Rand) *spec {
 
 func genPacks() {
 	r := run.Rand.Fork()
-	n := run.Scale(2500, 60000)
+	n := run.Scale(2500, 100000)
 	for i := 0; i < n; i++ {
 		packCase(randSpec(r))
+	}
+}
+
+// enumPacks: the full product of the option classes the property quantifies over (small scope).
+// quick: memory target, no faults; thorough: every target kind and every fault position.
+func enumPacks() {
+	targets := []string{"memory"}
+	fails := []int{-1}
+	if run.Thorough() {
+		targets = []string{"memory", "oci", "file", "registry"}
+		fails = []int{-1, 0, 1, 2, 3}
+	}
+	layer := descOf("application/octet-stream", []byte("layer-content"))
+	subjectD := descOf(ocispec.MediaTypeImageIndex, []byte(emptyIndex))
+	cfgs := []*ocispec.Descriptor{nil, {}, {}, {}}
+	*cfgs[1] = descOf("application/vnd.example.config.v1+json", []byte("cfg"))
+	*cfgs[2] = descOf(ocispec.MediaTypeEmptyJSON, []byte("{}"))
+	*cfgs[3] = descOf("bad type", []byte("cfg"))
+	backing := map[string]string{string(layer.Digest): "layer-content", string(subjectD.Digest): emptyIndex,
+		string(cfgs[1].Digest): "cfg", string(cfgs[2].Digest): "{}"}
+	for _, fn := range []string{"v10", "v11", "vbad", "rc2", "art"} {
+		for _, tg := range targets {
+			if run.Thorough() && tg != "memory" {
+				fails = []int{-1, 1}
+			} else if run.Thorough() {
+				fails = []int{-1, 0, 1, 2, 3}
+			}
+			for _, ex := range []bool{false, true} {
+				for _, cfg := range cfgs {
+					for li := 0; li < 3; li++ {
+						for si := 0; si < 2; si++ {
+							for _, at := range []string{"", "application/vnd.example.thing", "not a type", ocispec.MediaTypeImageManifest} {
+								for _, created := range []string{"", "2021-07-01T12:00:00Z", "2021-07-01T1:00:00Z", "yesterday"} {
+									for pi := 0; pi < 3; pi++ {
+										for _, fa := range fails {
+											sp := &spec{Fn: fn, Target: tg, Exists: ex, FailAt: fa, AT: at, Config: cfg, Backed: backing}
+											switch li {
+											case 0:
+												sp.LayersNil = true
+											case 1:
+												sp.Layers = []ocispec.Descriptor{}
+											default:
+												sp.Layers = []ocispec.Descriptor{layer}
+											}
+											if si == 1 {
+												d := subjectD
+												sp.Subject = &d
+											}
+											if created != "" {
+												sp.Ann = map[string]string{createdKey(fn): created, "k": "v"}
+											}
+											switch pi {
+											case 1:
+												sp.Prefill = []prefill{{MediaType: ocispec.MediaTypeEmptyJSON, Content: "{}"}}
+											case 2:
+												sp.Prefill = []prefill{{MediaType: "application/other", Content: "{}"}}
+											}
+											packCase(sp)
+											run.Count("enumerated")
+										}
+									}
+								}
+							}
+						}
+					}
+				}
+			}
+		}
 	}
 }
 
@@ -422,6 +490,7 @@ func main() {
 		run.Finish()
 		return
 	}
+	enumPacks()
 	genPacks()
 	genTimes()
 	genMediaTypes()
